@@ -94,6 +94,73 @@ func c20(c *core.Ctx) {
 	rAgree.Check(rs.modParm && rs.plusOne, srv.Key+":range", srv.Decl.Pos(), "hash % N + 1", "server island is not hash % N + 1 (result outside 1..N)")
 	rAgree.Check(rk.modParm && rk.plusOne, sdk.Key+":range", sdk.Decl.Pos(), "hash % N + 1", "SDK island is not hash % N + 1 (result outside 1..N)")
 
+	p := c.P
+	rFN := c.Rule("C20.fullname", "the location of a swamp is computed from its full name: every string handed to a hashing helper by GetFullHashPath is the accumulated path field (the field each builder step extends with the next part), not a single part of the name - two different names must not share a location because they share a part", 2)
+	{
+		_, nst := p.StructOf(pkgName, "name")
+		nf := core.StructFields(nst)
+		// the accumulated-path field: some composite literal sets F: <expr starting with x.F> + ...
+		var pathF *types.Var
+		for _, f := range p.FuncsIn(pkgName) {
+			if f.Decl.Body == nil {
+				continue
+			}
+			fi := f.Info()
+			ast.Inspect(f.Decl.Body, func(x ast.Node) bool {
+				kv, ok := x.(*ast.KeyValueExpr)
+				if !ok {
+					return true
+				}
+				id, isId := kv.Key.(*ast.Ident)
+				if !isId {
+					return true
+				}
+				fld, isF := fi.Uses[id].(*types.Var)
+				if !isF || !fld.IsField() || nf[fld.Name()] != fld {
+					return true
+				}
+				e := core.Unparen(kv.Value)
+				for {
+					be, isB := e.(*ast.BinaryExpr)
+					if !isB || be.Op != token.ADD {
+						break
+					}
+					e = core.Unparen(be.X)
+				}
+				if core.FieldOf(fi, e) == fld {
+					pathF = fld
+				}
+				return true
+			})
+		}
+		loc := c.Fn(pkgName + ".name.GetFullHashPath")
+		li := loc.Info()
+		// hashing helpers of the package: functions that call xxhash
+		hashers := map[*core.Func]bool{}
+		for _, f := range p.FuncsIn(pkgName) {
+			if f.Decl.Body == nil || f.Decl.Recv != nil {
+				continue
+			}
+			core.Calls(f.Decl.Body, false, func(call *ast.CallExpr) {
+				if fo := core.Callee(f.Info(), call); fo != nil && fo.Pkg() != nil && strings.Contains(fo.Pkg().Path(), "xxhash") {
+					hashers[f] = true
+				}
+			})
+		}
+		n := 0
+		core.Calls(loc.Decl.Body, false, func(call *ast.CallExpr) {
+			t := p.ByObj[core.Callee(li, call)]
+			if t == nil || !hashers[t] || len(call.Args) == 0 {
+				return
+			}
+			n++
+			rFN.Check(pathF != nil && core.FieldOf(li, call.Args[0]) == pathF, loc.Key+"->"+t.Obj.Name()+":input", call.Pos(), "hashes the full accumulated name", "the location component computed by "+t.Obj.Name()+" is hashed from "+core.ExprStr(call.Args[0])+", not from the full name: two swamps whose names differ only in the other parts get the same folder, the second one 'exists' before it was written and serves the first one's records")
+		})
+		if n == 0 {
+			rFN.Bad(loc.Key+":hash-inputs", loc.Decl.Pos(), "GetFullHashPath no longer calls the hashing helpers")
+		}
+	}
+
 	rB := c.Rule("C20.nopanic", "every index/slice expression in the path computation is within range on every path (guard discharge over SSA linear forms)", 3)
 	for _, k := range []string{pkgName + ".generateHashedDirectoryPath", pkgName + ".generateSwampFolderName", pkgName + ".name.GetFullHashPath", pkgName + ".name.GetFolderNumber", pkgSDKName + ".name.GetIslandID"} {
 		core.ReportBounds(c, rB, c.Fn(k), nil)
